@@ -207,6 +207,23 @@ def install(reg):
             out.append((e3, None))
         if ok2 is None:
             return out
+        if not z3.is_int_value(n):
+            # case split over small lengths (each case then has a concrete length)
+            rest = ok2
+            for k in range(0, 9):
+                if rest is None:
+                    break
+                st_k, rest = ex.branch(rest, n == k)
+                if st_k is not None:
+                    def at_k(i, x=x, k=k):
+                        e = z3.IntVal(0)
+                        for j in range(k - 1, -1, -1):
+                            e = z3.If(i == j, (x / (256 ** (k - 1 - j))) % 256, e)
+                        return e
+                    out.append((st_k, VBytes(z3.IntVal(k), at_k)))
+            if rest is None:
+                return out
+            ok2 = rest
         if z3.is_int_value(n):
             nn = n.as_long()
 
